@@ -103,7 +103,9 @@ pub(crate) fn copy_range_uspace(reader: &File, writer: &File, nbytes: usize, off
         let noff = off + written;
 
         let rlen = match read_bytes(reader, &mut buf[..next], noff) {
-            Ok(0) => return Err(Error::InvalidSource("Source file ended prematurely.")),
+            // End of file: like copy_file_range(2), report the short
+            // count (extents can extend past the end of the file).
+            Ok(0) => break,
             Ok(len) => len,
             Err(e) => return Err(e),
         };
